@@ -176,8 +176,8 @@ theorem policy_and_loader_gates_are_the_layers (c : Config) (o : Bool) (has : Py
 /-- **(6) closed_world**: the handler table of the source is exactly the one the model dispatches on -/
 theorem closed_world : Gen.Handlers.handlerTable = modelledHandlers := by decide
 
-/-- the parameter lists of the handlers are the ones the model binds arguments against -/
-theorem closed_world_params : Gen.Handlers.handlerParams = modelledParams := by decide
+/-- the numbers of positional arguments the handlers accept are the ones the model binds argument lists against -/
+theorem closed_world_params : Gen.Handlers.handlerArity = modelledArity := by decide
 
 /-- the primitive touches in the handler bodies are the ones the model was transcribed from -/
 theorem closed_world_touches : Gen.Handlers.handlerTouches = modelledTouches := by decide
